@@ -24,7 +24,8 @@ import common  # noqa: E402
 LEVEL = 'other'
 LEAN_MODULES = ['MpycV.Props.C05']
 LEAN_NAMESPACES = ['MpycV.C05']
-REQUIRED_THEOREMS = ['mul_value', 'norm_inv_mul', 'neg_exact', 'cmp_sign', 'io_bound', 'output_zero_exponent']
+REQUIRED_THEOREMS = ['mul_value', 'norm_inv_mul', 'norm_inv_addNorm', 'add_renorm_core', 'normFactor_eval', 'neg_exact',
+                     'cmp_sign', 'io_exact', 'io_bound', 'output_zero_exponent']
 RULE = ('case = (party configuration, type (s,e) in {(11,5),(24,8),(53,11)}, operation in {+,-,*,/ (secure and public float '
         'operand), <,<=,==,>=,>,!=, neg, abs, input/output}, operands): random significands (full double precision and s-bit), '
         'exponents within a quarter of the exponent range; adversarial: cancellation x + (-x(1+delta)), equal exponents, powers of '
@@ -34,9 +35,11 @@ EXPLANATION = ('PROVED in Lean (MpycV.C05, relative to the fixed-point lemmas of
                'product: the result denotes s*2^(E1+E2) with s within one unit 2^-f of the exact significand product (hence relative '
                'error < 4u <= 16u) and is normalised (0 or 1/2 <= |significand| <= 1) for normalised operands, for every randomness; '
                'negation exact; comparison bits are the sign/zero test of the significand of the difference; input conversion within '
-               'u|x| <= 2u|x| given the exponent the code computes; output masks the exponent of zero. VALIDATED ONLY (exploration '
+               'u|x| <= 2u|x| given the exponent the code computes; output masks the exponent of zero; the renormalisation half of + and - '
+               '(leading-bit search, scaling with one truncation) returns a normalised significand for every aligned sum |s| <= 2 and '
+               'every randomness. VALIDATED ONLY (exploration '
                'against exact rationals): bounds for + and - (16u*max(|x|,|y|)), for / (16u*|x/y|, Newton reciprocal), exactness of '
-               'comparisons for separated operands, normalisation after addition.  Known finding C05-add-zero-operand: a zero operand '
+               'comparisons for separated operands, the alignment half of addition.  Known finding C05-add-zero-operand: a zero operand '
                'carries an arbitrary exponent; adding it to a number with a smaller exponent shifts that number away.')
 ASSUMPTIONS = ['to_bits/find/unit_vector/convert/comparison of exponents behave as specified (C01, C06, C30)',
                'math.ceil(math.log(|x|, 2)) returns an exponent e with 2^(e-1) <= |x| <= 2^e (checked per input)',
@@ -45,7 +48,6 @@ TRUSTED = ['harness/fxp_lib.py randomness recovery; harness/props/c05.py interpr
 
 TYPES = [(11, 5), (24, 8), (53, 11)]
 KEY_ZERO = 'C05-add-zero-operand'
-KEY_POW2 = 'C05-input-near-power-of-two'
 CMPS = {'lt': lambda a, b: a < b, 'le': lambda a, b: a <= b, 'eq': lambda a, b: a == b,
         'ne': lambda a, b: a != b, 'ge': lambda a, b: a >= b, 'gt': lambda a, b: a > b}
 
@@ -183,7 +185,7 @@ def rnd_float(rng, s, emax, bits=None):
     mant = rng.getrandbits(bits) | (1 << (bits - 1)) if bits > 1 else 1
     x = mant / (1 << bits)            # in [1/2, 1)
     if rng.random() < 0.15:
-        x = rng.choice([0.5, 1.0 - 2.0 ** -53, 0.75, 0.5 + 2.0 ** -min(s - 1, 30), 1.0 - 2.0 ** -(s - 1), 0.5 + 2.0 ** -min(s, 30)])
+        x = rng.choice([0.5, 1.0 - 2.0 ** -53, 0.75, 0.5 + 2.0 ** -(s - 1), 1.0 - 2.0 ** -(s - 1), 0.5 + 2.0 ** -s, 0.5 + 2.0 ** -53])
     e = rng.randrange(-emax, emax + 1)
     return rng.choice([-1, 1]) * x * 2.0 ** e
 
@@ -240,8 +242,15 @@ def gen_cases(rng, se, n, kind):
     return cases
 
 
+# inputs just above a power of two (constructor used math.log only; fixed by 60f2793)
 DIRECTED_POW2 = [{'op': 'io', 'x': (256.00000000000006).hex(), 'y': None, 'pub': False},
-                 {'op': 'add', 'x': (1.5).hex(), 'y': (2.0 ** -8 * (1 + 2.0 ** -52)).hex(), 'pub': True}]
+                 {'op': 'io', 'x': (1024 * (1 + 2.0 ** -52)).hex(), 'y': None, 'pub': False},
+                 {'op': 'add', 'x': (1.5).hex(), 'y': (2.0 ** -8 * (1 + 2.0 ** -52)).hex(), 'pub': True},
+                 {'op': 'mul', 'x': (2.0 ** 5).hex(), 'y': (-(2.0 ** -8) * (1 + 2.0 ** -52)).hex(), 'pub': False},
+                 {'op': 'io', 'x': ((1 - 2.0 ** -53) * 2.0 ** 9).hex(), 'y': None, 'pub': False}]
+# just below a power of two where math.log rounds up (needs a 30+ bit exponent range: types with e >= 8)
+DIRECTED_POW2_BIG = [{'op': 'io', 'x': ((1 - 2.0 ** -53) * 2.0 ** 29).hex(), 'y': None, 'pub': False},
+                     {'op': 'mul', 'x': ((1 - 2.0 ** -53) * 2.0 ** 51).hex(), 'y': (0.75).hex(), 'pub': False}]
 DIRECTED_ZERO = [{'op': 'add', 'x': (0.0).hex(), 'y': (1.5 * 2.0 ** -40).hex(), 'pub': False},
                  {'op': 'sub', 'x': (1.0).hex(), 'y': (1.0).hex(), 'pub': False, 'then': ('add', (1.5 * 2.0 ** -40).hex())}]
 
@@ -249,14 +258,6 @@ DIRECTED_ZERO = [{'op': 'add', 'x': (0.0).hex(), 'y': (1.5 * 2.0 ** -40).hex(), 
 # ---------------------------------------------------------------------------------------------
 # oracle
 # ---------------------------------------------------------------------------------------------
-def near_pow2(x):
-    """x = 2^k (1 + d) with 0 < d <= 2^-40: the class of the known constructor finding"""
-    if x == 0:
-        return False
-    m, _e = math.frexp(abs(x))
-    return 0 < m - 0.5 <= 2.0 ** -41
-
-
 def val(raw, f):
     S, _fl, E = raw
     return Fr(S, 1 << f) * (Fr(2) ** E)
@@ -269,10 +270,6 @@ def check_case(se, c, rec, p=None):
     u = Fr(1, 1 << (s - 1))
     out = []
     if 'error' in rec:
-        hexes = [c['x'], c.get('y'), (c.get('then') or (None, None))[1]]
-        if rec['error'].startswith('AssertionError') and any(h is not None and near_pow2(float.fromhex(h)) for h in hexes):
-            return [('pow2', f"secflt({[float.fromhex(h) for h in hexes if h is not None and near_pow2(float.fromhex(h))][0]!r}) "
-                             f"raised {rec['error']}")]
         return [('crash', f"{c['op']} raised {rec['error']}")]
 
     def normal(raw, what):
@@ -410,9 +407,10 @@ def run(ctx):
     for cfg in ((1, 0, False), (3, 1, False)):
         res = run_cases(cfg, (11, 8), DIRECTED_ZERO, ctx.seed + 5)
         results.append({'key': 'zero', 'cfg': list(cfg), 'se': [11, 8], 'cases': DIRECTED_ZERO, 'res': res})
-    for cs in DIRECTED_POW2:
-        res = run_cases((1, 0, False), (24, 8), [cs], ctx.seed + 6)
-        results.append({'key': 'pow2', 'cfg': [1, 0, False], 'se': [24, 8], 'cases': [cs], 'res': res})
+    for se in TYPES:
+        cs = DIRECTED_POW2 + (DIRECTED_POW2_BIG if se[1] >= 8 else [])
+        res = run_cases((1, 0, False), se, cs, ctx.seed + 6)
+        results.append({'key': 'pow2', 'cfg': [1, 0, False], 'se': list(se), 'cases': cs, 'res': res})
     items = []
     for r in results:
         handle(ctx, r, items)
@@ -438,10 +436,10 @@ def handle(ctx, r, items=None):
         for kind, msg in check_case(se, c, rec):
             rep = {'kind': 'flt', 'cfg': r['cfg'], 'se': r['se'], 'cases': [c], 'seed': ctx.seed, 'check': kind,
                    'observed': {k: v for k, v in rec.items() if not k.startswith('calls')}}
-            if kind in ('zero', 'pow2'):
+            if kind == 'zero':
                 if kind not in reported:
                     reported.add(kind)
-                    rep['finding_key'] = KEY_ZERO if kind == 'zero' else KEY_POW2
+                    rep['finding_key'] = KEY_ZERO
                     ctx.violation('C05: ' + msg, rep)
                 continue
             ctx.violation('C05: ' + msg, rep)
@@ -462,9 +460,9 @@ def replay(ctx, data):
     for c, rec in zip(data['cases'], res['recs']):
         for kind, msg in check_case(tuple(data['se']), c, rec):
             if key:
-                if kind == {KEY_ZERO: 'zero', KEY_POW2: 'pow2'}.get(key):
+                if kind == 'zero':
                     msgs.append(msg)
-            elif kind not in ('zero', 'pow2'):
+            elif kind != 'zero':
                 msgs.append(msg)
     if msgs:
         return False, msgs[0]
